@@ -284,6 +284,14 @@ class Check:
                 self.proof_broken("tools/translate_proto.py: the protocol sources no longer have the table shape the "
                                   "translator accepts (%s): gen/ProtoTables.v cannot be regenerated" % e)
                 return False
+        if pid == "C17":
+            import translate_names
+            try:
+                translate_names.regenerate(REPO)
+            except (translate_names.ShapeError, OSError) as e:
+                self.proof_broken("tools/translate_names.py: genapi/src/parser/elem_name.rs no longer has the shape the "
+                                  "translator accepts (%s): gen/ElemNames.v cannot be regenerated" % e)
+                return False
         bad = grep_forbidden()
         if bad:
             self.proof_broken("forbidden constructs in the development: " + "; ".join(bad[:10]))
